@@ -205,6 +205,7 @@ def cases():
             allow_list=True,
             extra_unary=["exp", "log1p", "floor", "sin", "atan", "asinh"],
             extra_binary=["atan2", "copysign", "hypot", "pow"],
+            extra_pred=["is_finite"],
         ),
         st.integers(0, 2**31 - 1),
         st.booleans(),
@@ -294,7 +295,7 @@ def run(ctx):
     ctx.merge(shipped(ctx))
     n = 900 if ctx.quick else 12000
     ctx.pmap(_shard, [(ctx.seed, s, n, ctx.known) for s in range(16)])
-    ctx.pmap(kind_probe, [(ctx.seed, i, i + 50) for i in range(0, 800, 50)])
+    ctx.pmap(kind_probe, [(ctx.seed, i, i + 50) for i in range(0, 1150, 50)])
     from harness import fuzz
 
     fuzz.campaign(ctx, "C08", ["numpy-debug"], runs=600 if ctx.quick else 15000, workers=8 if ctx.quick else 16)
@@ -333,6 +334,9 @@ def kind_probe(task):
                 specs.append((k, {"syms": syms, "nodes": [["sym", 0], ["sym", 1], [k, 0, 1]], "root": 2}))
             specs.append(("select", {"syms": syms, "nodes": [["sym", 0], ["sym", 1], ["real", 0], ["real", 1], ["lt", 2, 3], ["select", 4, 0, 1]], "root": 5}))
             specs.append(("select", {"syms": syms, "nodes": [["sym", 0], ["sym", 1], ["real", 0], ["real", 1], ["lt", 2, 3], ["select", 4, 1, 0]], "root": 5}))
+            for k in ("absolute", "real", "imag", "negative", "square", "conjugate"):
+                for order in ([0, 1], [1, 0]):
+                    specs.append((k + "(select)", {"syms": syms, "nodes": [["sym", 0], ["sym", 1], ["real", 0], ["real", 1], ["lt", 2, 3], ["select", 4] + order, [k, 5], ["add", 6, 6]], "root": 7}))
     for k, spec in specs[lo:hi]:
         try:
             progs.build(spec)
